@@ -234,6 +234,11 @@ METHODS = ["X", "SX", "CNOT", "CNOT_inv", "ECR", "ECR_inv", "relaxation", "depol
 def perturb(rng, m, args, what):
     """an adversarial neighbour of a call: same angles with another duration, or same durations with other angles"""
     a = list(args)
+    if what == "phase":       # same angle, durations and noise values, another drive phase (a virtual rz happened in between)
+        idx = {"X": [0], "SX": [0], "single_qubit_gate": [1], "CR": [1]}.get(m, [0, 1] if m in ("CNOT", "CNOT_inv", "ECR", "ECR_inv") else [])
+        for i in idx:
+            a[i] = a[i] + rng.choice([0.37, -1.1, 2.0])
+        return m, tuple(a)
     if what == "noise":
         # same angles and durations, other error probabilities / T1 / T2 (another qubit's calibration on the same gate set)
         first = {"X": 1, "SX": 1, "single_qubit_gate": 2, "CR": 3, "relaxation": 1, "bitflip": 1, "depolarizing": 1}.get(m, 3)
@@ -316,8 +321,10 @@ def gen_gate_case(rng, quick):
             ev.append(["call", 0, m, args])                         # warm the cache with the very same request
         elif r < 0.56 and m in ("single_qubit_gate", "CR") and float(np.float32(args[0])) == float(args[0]):
             ev.append(["call32", 0, m, args])                       # ... and with the angle as np.float32 (exactly representable angles only)
-        elif r < 0.68:
+        elif r < 0.64:
             m2, a2 = perturb(rng, m, args, "noise"); ev.append(["call", 0, m2, a2])   # same pulse, another qubit's noise values
+        elif r < 0.72:
+            m2, a2 = perturb(rng, m, args, "phase"); ev.append(["call", 0, m2, a2])   # same pulse and noise values, another phase
         elif r < 0.80:
             other = rng.choice([["Gates", rng.choice([0, 1, 2])], ["Scaled", pid, 0.5], ["NoiseFree"], ["standard"], ["numerical"], ["Gates", pid]])
             m2, a2 = (m, args) if rng.random() < 0.5 else perturb(rng, m, args, "duration")
